@@ -236,3 +236,60 @@ Example C19_example_hypotheses :
   classify (s2z "set boxed 1") = Command true (s2z "set") (s2z "boxed 1") /\
   find_query demo_world (s2z "one") <> None.
 Proof. vm_compute. repeat split; discriminate. Qed.
+
+From Verif Require Import Base.PyValue Model.PyMini Model.PrimsApi Gen.SrcShell Proofs.SrcShell.
+
+(* ---- Tie by translation (re-checked on every run against the CURRENT source of beanquery/shell.py).
+   Gen/SrcShell.v holds the PyMini translations (harness/vf/py2mini.py + src_api.py, from inspect.getsource of the
+   imported classes) of DispatchingShell.parseline, DispatchingShell.onecmd and Settings._parse_bool.  The string
+   methods are those of this model (strip, lower; startswith, ==, membership in a literal set are computed on code
+   points), cmd.Cmd.parseline is [cmd_parseline], getattr(self, 'do_' + cmd, None) is a parameter [ga].
+
+   C19_source_onecmd: for EVERY input line the translated onecmd reaches exactly the handler [classify] names -
+   nothing, self.execute(text), or do_<name>(arg) (self.error and None if there is no such method) - with exactly
+   those arguments.  (The deprecation warning is a call whose result is discarded: that it is issued is covered by
+   the correspondence, not by this theorem.) *)
+Theorem C19_source_parseline : forall (call_ref : nat -> list pv -> pv) (msg : string -> list pv -> pv)
+    (ga : list Z -> option nat) (flds : env) (line : list Z),
+  call_method call_ref (prim_api (shell_lib ga) msg) shell_parseline flds [PS line] = Ok (flds, sh_parseline line).
+Proof. exact parseline_src. Qed.
+Print Assumptions C19_source_parseline.
+
+Theorem C19_source_onecmd : forall (call_ref : nat -> list pv -> pv) (msg : string -> list pv -> pv)
+    (ga : list Z -> option nat) (kpl kexec kerr kwarn : nat) (flds : env) (line : list Z),
+  ref_of refs "_warnings.warn:stacklevel" = Some kwarn ->
+  PyMini.lookup "parseline" flds = Some (PRef kpl) -> PyMini.lookup "execute" flds = Some (PRef kexec) ->
+  PyMini.lookup "error" flds = Some (PRef kerr) ->
+  (forall l, call_ref kpl [PS l] = sh_parseline l) ->
+  (forall args, exists v, do_call call_ref (PRef kwarn) args = Ok v) ->
+  (forall args, exists v, do_call call_ref (PRef kerr) args = Ok v) ->
+  call_method call_ref (prim_api (shell_lib ga) msg) shell_onecmd flds [PS line] =
+  dispatch call_ref ga kexec flds (classify line).
+Proof. exact onecmd_src. Qed.
+Print Assumptions C19_source_onecmd.
+
+(* Settings._parse_bool is the model's parse_bool (the function `.set` is stated over for bool settings) *)
+Theorem C19_source_parse_bool : forall (call_ref : nat -> list pv -> pv) (msg : string -> list pv -> pv)
+    (ga : list Z -> option nat) (flds : env) (v : list Z),
+  call_method call_ref (prim_api (shell_lib ga) msg) settings_parse_bool flds [PS v] =
+  match parse_bool v with
+  | inr b => Ok (flds, PBool b)
+  | inl _ => Exc ValueError
+  end.
+Proof. exact parse_bool_src. Qed.
+Print Assumptions C19_source_parse_bool.
+
+(* Non-vacuity: a shell whose parseline is the tied one, on the line "set boxed 1" (no dot: legacy command). *)
+Example C19_source_example :
+  let ga := fun n : list Z => if zeqb n (zs "do_set") then Some 7%nat else None in
+  let cr := fun (k : nat) (args : list pv) =>
+    match k, args with
+    | 1%nat, [PV (VStr l)] => sh_parseline l
+    | 7%nat, [a] => PTuple [PStr "do_set"; a]
+    | _, _ => PNone
+    end in
+  call_method cr (prim_api (shell_lib ga) (fun _ _ => PNone)) shell_onecmd
+    [("parseline", PRef 1); ("execute", PRef 2); ("error", PRef 3)]%string [PS (s2z "set boxed 1")]
+  = Ok ([("parseline", PRef 1); ("execute", PRef 2); ("error", PRef 3)]%string,
+        PTuple [PStr "do_set"; PS (s2z "boxed 1")]).
+Proof. vm_compute. reflexivity. Qed.
